@@ -16,7 +16,9 @@ struct Conv {
 	i64 v = 0;
 };
 
-template<bool NoexceptMove>
+// NoexceptMoveAssign defaults to NoexceptMove; TrackedMC has a throwing move constructor and a noexcept move assignment (a type for
+// which a trait about one move operation says nothing about the other: seeded C09-r7b-m1)
+template<bool NoexceptMove, bool NoexceptMoveAssign = NoexceptMove>
 struct TrackedT {
 	i64 v;
 	u64 tag;
@@ -110,10 +112,10 @@ struct TrackedT {
 		if(ok) v = o.v;
 		return *this;
 	}
-	auto operator=(TrackedT&& o) noexcept(NoexceptMove) -> TrackedT& {
+	auto operator=(TrackedT&& o) noexcept(NoexceptMoveAssign) -> TrackedT& {
 		W.event(E_MASSIGN);
 		bool const ok = dst_ok("move assignment") & src_ok(o, "move assignment");
-		if constexpr(!NoexceptMove) {
+		if constexpr(!NoexceptMoveAssign) {
 			if(W.hit(F_MASSIGN)) throw injected_fault{F_MASSIGN, W.armed_k};
 		}
 		if(ok && this != &o) {
@@ -146,6 +148,7 @@ struct TrackedT {
 
 using Tracked   = TrackedT<true>;
 using TrackedNM = TrackedT<false>;
+using TrackedMC = TrackedT<false, true>;
 
 struct Triv {
 	i64 v;
@@ -203,8 +206,8 @@ struct ConvTriv {  // convertible to Triv; same size, other representation: a bi
 
 // ---- uniform element access for the harness
 template<class E> struct elem_traits;
-template<bool N> struct elem_traits<TrackedT<N>> {
-	using E    = TrackedT<N>;
+template<bool N, bool A> struct elem_traits<TrackedT<N, A>> {
+	using E    = TrackedT<N, A>;
 	using conv = Conv;
 	static constexpr bool tracked = true, throwing_move = !N, trivial = false;
 	static auto make(i64 v) -> E { return E{v}; }
